@@ -312,6 +312,33 @@ pub proof fn lemma_el_settle<const K: usize>(a: AArena<K>, root: usize, s: Seq<D
     reveal(el_inv);
 }
 // writing the value (state) of the node in progress
+pub open spec fn same_parents<const K: usize>(a0: AArena<K>, a1: AArena<K>) -> bool {
+    a1.dom() == a0.dom() && forall|i: usize| a0.dom().contains(i) ==> #[trigger] a1[i].parent == a0[i].parent
+}
+pub proof fn lemma_el_write_clauses<const K: usize>(a0: AArena<K>, a1: AArena<K>, root: usize, s: Seq<DfsNodeData>, vis: Set<usize>, ex: usize)
+    requires same_parents(a0, a1), parents_ok(a0), el_entries(a0, root, s, vis), el_pairs(a0, s), el_closed(a0, root, vis), el_clean(a0, root, s, vis, ex),
+        forall|i: usize| a0.dom().contains(i) && i != ex ==> #[trigger] a1[i].value == a0[i].value,
+    ensures el_entries(a1, root, s, vis), el_pairs(a1, s), el_closed(a1, root, vis), el_clean(a1, root, s, vis, ex)
+{
+    assert forall|k: int| 0 <= k < s.len() implies a1.dom().contains((#[trigger] s[k]).index) && !vis.contains(s[k].index) && s[k].depth <= vis.len()
+            && (s[k].index == root || (a1[s[k].index].parent is Some && vis.contains(a1[s[k].index].parent.unwrap()))) by {
+        assert(a1[s[k].index].parent == a0[s[k].index].parent);
+    }
+    assert forall|k1: int, k2: int| 0 <= k1 < k2 < s.len() implies (#[trigger] s[k1]).index != (#[trigger] s[k2]).index
+            && (a1[s[k1].index].parent == a1[s[k2].index].parent ==> s[k2].n_remaining > 0) by {
+        assert(a1[s[k1].index].parent == a0[s[k1].index].parent && a1[s[k2].index].parent == a0[s[k2].index].parent);
+    }
+    assert forall|x: usize| #![trigger vis.contains(x)] vis.contains(x) && a1.dom().contains(x) && x != root implies a1[x].parent is Some && vis.contains(a1[x].parent.unwrap()) by {
+        assert(a1[x].parent == a0[x].parent);
+    }
+    assert forall|x: usize| #![trigger a1[x].parent] tracked(s, vis, x) && a1.dom().contains(x) && a1[x].parent is Some implies
+        a1[x].parent.unwrap() == root || a1[x].parent.unwrap() == ex || !(a1[a1[x].parent.unwrap()].value.state is Infeasible) by {
+        let y = a0[x].parent.unwrap();
+        assert(a1[x].parent == a0[x].parent);
+        assert(a0.dom().contains(y));
+        if y != ex { assert(a1[y].value == a0[y].value); }
+    }
+}
 pub proof fn lemma_el_write<const K: usize>(a0: AArena<K>, a1: AArena<K>, root: usize, s: Seq<DfsNodeData>, vis: Set<usize>, ex: usize, d0: Set<usize>)
     requires el_inv(a0, root, s, vis, ex, d0), value_written(a0, a1, ex)
     ensures el_inv(a1, root, s, vis, ex, d0),
@@ -321,14 +348,18 @@ pub proof fn lemma_el_write<const K: usize>(a0: AArena<K>, a1: AArena<K>, root: 
     reveal(el_inv);
     assert(same_shape(a0, a1));
     lemma_same_shape_wf(a0, a1, Some(root));
-    assert forall|i: usize| a0.dom().contains(i) implies a1[i].parent == a0[i].parent by { if i != ex { assert(a1[i] == a0[i]); } }
-    assert forall|x: usize| #![trigger a1[x].parent] tracked(s, vis, x) && a1.dom().contains(x) && a1[x].parent is Some implies
-        a1[x].parent.unwrap() == root || a1[x].parent.unwrap() == ex || !(a1[a1[x].parent.unwrap()].value.state is Infeasible) by {
-        let y = a0[x].parent.unwrap();
-        assert(a1[x].parent == a0[x].parent);
-        assert(a0.dom().contains(y));
-        if y != ex { assert(a1[y] == a0[y]); }
+    assert(same_parents(a0, a1)) by {
+        assert forall|i: usize| a0.dom().contains(i) implies #[trigger] a1[i].parent == a0[i].parent by { if i != ex { assert(a1[i] == a0[i]); } }
     }
+    lemma_el_write_clauses(a0, a1, root, s, vis, ex);
+    lemma_el_write_aux(a0, a1, s, vis);
+}
+pub proof fn lemma_el_write_aux<const K: usize>(a0: AArena<K>, a1: AArena<K>, s: Seq<DfsNodeData>, vis: Set<usize>)
+    requires same_parents(a0, a1), forall|k: int| 0 <= k < s.len() ==> a0.dom().contains((#[trigger] s[k]).index)
+    ensures
+        forall|n: usize| no_kid_tracked(a0, s, vis, n) ==> no_kid_tracked(a1, s, vis, n),
+        forall|p: Option<usize>| no_sibling_waiting(a0, s, p) ==> no_sibling_waiting(a1, s, p),
+{
     assert forall|n: usize| no_kid_tracked(a0, s, vis, n) implies no_kid_tracked(a1, s, vis, n) by {
         assert forall|x: usize| #![trigger a1[x].parent] tracked(s, vis, x) && a1.dom().contains(x) implies a1[x].parent != Some(n) by { assert(a1[x].parent == a0[x].parent); }
     }
